@@ -198,6 +198,40 @@ func runC01(c *Ctx) {
 			"height comparison with nextCheckpoint.Height present", "no comparison with nextCheckpoint.Height found: checkpoint test unreachable or unconditional", c.ats(hcmps)...)
 	})
 
+	c.rule("C01.G5", "handleHeadersMsg: once a header has been matched against nextCheckpoint, no further header of the message is added to the batch until nextCheckpoint has been advanced (later headers would be checked against the stale checkpoint, so a second checkpoint inside the same message would never be compared)", func() {
+		fn := c.fn(fnHandleHeaders)
+		isEqual := c.method(pChainhash, "Hash", "IsEqual")
+		cpHash := c.field(pChaincfg, "Checkpoint", "Hash")
+		g := boolIs("nodeHash.IsEqual(nextCheckpoint.Hash)", find(fn, anyArg(callTo(isEqual), loadsField(cpHash))), 0, true)
+		next := c.field("neutrino", "blockManager", "nextCheckpoint")
+		construct := c.nm(fn) + " | after a checkpoint match no header is batched before nextCheckpoint advances"
+		if len(g.sites) < 1 {
+			c.fail(construct, c.P.Pos(fn.Pos()), "checkpoint comparison not found")
+			return
+		}
+		var bad []string
+		for _, s := range c.successEdges(g) {
+			ir.Walk(s.b, s.idx, nil, func(in ssa.Instruction) bool {
+				if storeToField(next)(in) {
+					return false
+				}
+				if appendsOf(hdrNamed())(in) {
+					bad = append(bad, c.at(in))
+				}
+				return true
+			})
+		}
+		sort.Strings(bad)
+		c.verdict(len(bad) == 0, construct, c.P.Pos(fn.Pos()), "the batch append is unreachable after a checkpoint match until nextCheckpoint is reassigned", "after a header matched the checkpoint, the batch append at "+join(bad)+" is reachable again without nextCheckpoint having been advanced", c.ats(vcallInstrs(nil))...)
+		// and the advance uses the height of the last accepted header
+		findNext := c.method("neutrino", "blockManager", "findNextHeaderCheckpoint")
+		okAdv := false
+		for _, st := range find(fn, storeToField(next)) {
+			okAdv = valIsCallTo(findNext)(st.(*ssa.Store).Val)
+		}
+		c.verdict(okAdv, c.nm(fn)+" | nextCheckpoint advanced by findNextHeaderCheckpoint", c.P.Pos(fn.Pos()), "b.nextCheckpoint = b.findNextHeaderCheckpoint(finalHeight)", "nextCheckpoint is not advanced through findNextHeaderCheckpoint")
+	})
+
 	c.rule("C01.W1", "only the tabled functions write or roll back the block-header store (BlockHeaderStore.WriteHeaders / RollbackBlockHeaders / RollbackLastBlock)", func() {
 		w := bhsWrite()
 		rb := c.method("headerfs", "BlockHeaderStore", "RollbackBlockHeaders")
